@@ -44,6 +44,10 @@ CHECK_DEADLOCK FALSE
 
 
 ENDINGS = ["blank_line", "last_token", "comment"]
+# SchemaSource!HeaderKinds: a value that IS "$NAME" is replaced by the environment variable; every other value is sent as it is,
+# also when it holds a "$" somewhere else
+HEADERS_CFG = {"Authorization": "$VERIF_TOKEN", "X-Plain": "v", "X-Dollar-Inside": "k3y$Secret9", "X-Double": "pa$$w0rd", "X-Bearer": "Bearer $TOKEN"}
+HEADERS_SENT = {"Authorization": "s3cret", "X-Plain": "v", "X-Dollar-Inside": "k3y$Secret9", "X-Double": "pa$$w0rd", "X-Bearer": "Bearer $TOKEN"}
 
 
 class Handler(http.server.BaseHTTPRequestHandler):
@@ -174,16 +178,17 @@ def run(tier, work, replay=None):
         outs = pmap(gen_dir, list(enumerate(partitions)))
         # introspection source (served by graphql-core on the loop-back interface)
         job = write_job(work.dir / "introspect", schema=None, queries=QUERIES, package="gclient", remote_schema_url=base + "/ok",
-                        options={"async_client": False, "remote_schema_headers": {"Authorization": "$VERIF_TOKEN", "X-Plain": "v"},
+                        options={"async_client": False, "remote_schema_headers": HEADERS_CFG,
                                  "remote_schema_verify_ssl": False})
-        rr = generate(job, env={"VERIF_TOKEN": "s3cret", "VERIF_PROBE_HTTPX": "1"})
+        # Secret9 / w0rd exist in the environment: a "$" INSIDE a value is not a reference and must not pick them up
+        rr = generate(job, env={"VERIF_TOKEN": "s3cret", "VERIF_PROBE_HTTPX": "1", "Secret9": "UNRELATED", "w0rd": "UNRELATED", "TOKEN": "UNRELATED"})
         outs.append(("introspection", ["-"] * 5, rr, package_parts(job) if rr["exc_class"] is None else None, "blank_line"))
         posts = [e for e in rr.get("events", []) if isinstance(e, dict) and e.get("e") == "httpx.post"]
         got = [s for s in Handler.seen if s["path"] == "/ok"]
-        if not posts or posts[0]["headers"].get("Authorization") != "s3cret" or posts[0]["headers"].get("X-Plain") != "v":
-            v.violation({"part": "request", "what": "headers"}, "configured_headers_not_sent", {"posts": posts})
-        elif not got or got[-1]["headers"].get("authorization") != "s3cret" or got[-1]["headers"].get("x-plain") != "v":
-            v.violation({"part": "request", "what": "headers"}, "configured_headers_not_received", {"server_saw": got[-1:] })
+        if not posts or {k: posts[0]["headers"].get(k) for k in HEADERS_SENT} != HEADERS_SENT:
+            v.violation({"part": "request", "what": "headers"}, "configured_headers_not_sent", {"posts": posts, "expected": HEADERS_SENT})
+        elif not got or {k: got[-1]["headers"].get(k.lower()) for k in HEADERS_SENT} != HEADERS_SENT:
+            v.violation({"part": "request", "what": "headers"}, "configured_headers_not_received", {"server_saw": got[-1:], "expected": HEADERS_SENT})
         if posts and posts[0]["verify"] is not False:
             v.violation({"part": "request", "what": "verify"}, "verify_flag_not_passed", {"posts": posts})
         job2 = write_job(work.dir / "introspect_verify", schema=None, queries=QUERIES, package="gclient", remote_schema_url=base + "/ok",
